@@ -19,6 +19,7 @@ from pathlib import Path
 
 import numpy as np
 
+from harness import c17_csv
 from harness.common import Failure, HarnessError, cbool, clist, cnat, copt, cstr, cz, exn_name
 
 PROP = "C17"
@@ -280,6 +281,8 @@ def _generate(rng: random.Random, tier: str):
                   "overwrite": via == "api" and rng.random() < 0.5, "via": via,
                   "suffix": rng.choice([".csv", ".csv", "", ".tar.gz", ".v1.csv", ".txt"]), "block": "csv-random"})
         yield g
+    # fx2011: the CSV text layer and pandas.read_csv with default arguments (harness/c17_csv.py)
+    yield from c17_csv.generate(rng, tier, int_pool, FLOAT_POOL)
 
 
 # ---------------------------------------------------------------- implementation
@@ -373,12 +376,19 @@ def parse_csv(path):
         if col in typed.columns:
             ids[col] = [cell_py(v) for v in typed[col].tolist()]
     out["typed_ids"] = ids
+    out["default"] = c17_csv.read_default(path)       # fx2011: the whole table as default read_csv shows it
     return out
 
 
 def run_one(c):
     from zarr.storage import MemoryStore
 
+    if c["kind"] == "csvtext":
+        return c17_csv.run_csvtext(c, write_store, listing_order)
+    if c["kind"] == "read":
+        return c17_csv.run_read(c)
+    if c["kind"] == "consts":
+        return c17_csv.run_consts()
     if c["kind"] == "frames":
         store = MemoryStore()
         write_store(c, store)
@@ -658,6 +668,8 @@ def names_ok(c):
 
 
 def coq_case(c, o):
+    if c["kind"] in ("csvtext", "read", "consts"):
+        return c17_csv.coq_case(c, o)
     if not names_ok(c):
         return None
     g = coq_graph(c, o["order"])
@@ -830,6 +842,10 @@ def check_table(c, key, idcols, rows, columns, warned, what, from_text=False):
 
 def oracle(c, o):
     tags = {"kind": c["kind"]}
+    if c["kind"] in ("read", "consts"):
+        return None                                   # reader model / constants: correspondence only
+    if c["kind"] == "csvtext":
+        return c17_csv.oracle_csvtext(c, o, alternatives)
     idn = [("id", c["ids"])]
     ide = [("source", [e[0] for e in c["edges"]]), ("target", [e[1] for e in c["edges"]])]
     if c["kind"] == "frames":
@@ -864,20 +880,27 @@ def oracle(c, o):
             if f["typed_ids"].get(name) != ids:
                 return Failure(c, o, f"{k} csv: pandas.read_csv gives {name}={f['typed_ids'].get(name)}, stored {ids}",
                                {**tags, "why": "csv-ids"})
-    return None
+    # fx2011: the observation point of the property is pandas.read_csv with default arguments
+    return c17_csv.default_failure(c, o, tags, alternatives)
 
 
 # ---------------------------------------------------------------- evidence helpers
 def nontrivial(c, o):
+    if c["kind"] in ("read", "consts"):
+        return c["kind"] == "read"
     return bool(c["nprops"] or c["eprops"])
 
 
 def describe(c, o):
+    if c["kind"] in ("read", "consts"):
+        return f"{c['kind']}:{c.get('block')}"
     props = c["nprops"] + c["eprops"]
     maxrank = max([len(p["shape"]) for p in props], default=0)
     masked = any(p["missing"] and any(p["missing"]) for p in props)
     n = len(c["ids"])
     base = f"{c['kind']}:{c.get('block')}:n={n if n < 2 else '2+'}:maxrank={maxrank}:mask={'y' if masked else 'n'}:zarr{c['zf']}"
+    if c["kind"] == "csvtext":
+        base = f"csvtext:{c.get('block')}:n={n if n < 2 else '2+'}:mask={'y' if masked else 'n'}"
     if c["kind"] == "csv":
         base = (f"csv:{c.get('block')}:pre={int(c['pre_nodes'])}{int(c['pre_edges'])}:ov={int(c['overwrite'])}:{c['via']}:"
                 f"{o['res'] if o['res'] == 'ok' else o.get('exc')}")
@@ -893,7 +916,7 @@ def shrink(c):
             return False
 
     cur = c
-    changed = True
+    changed = "nprops" in c
     while changed:
         changed = False
         for key in ("nprops", "eprops"):
@@ -909,7 +932,7 @@ def shrink(c):
 
 def load_case(c):
     """Replay files spell non-finite floats as text."""
-    for p in c["nprops"] + c["eprops"]:
+    for p in c.get("nprops", []) + c.get("eprops", []):
         if p["dtype"].startswith("float"):
             p["values"] = [float(v) for v in p["values"]]
     return c
